@@ -2,10 +2,10 @@ package main
 
 import (
 	"bufio"
-	"math/rand"
 	"encoding/base64"
 	"encoding/json"
 	"fmt"
+	"math/rand"
 	"os"
 	"os/exec"
 	"path/filepath"
